@@ -2,6 +2,7 @@ package main
 
 import (
 	"bytes"
+	"context"
 	"encoding/base64"
 	"encoding/json"
 	"fmt"
@@ -9,6 +10,7 @@ import (
 	"os/exec"
 	"path/filepath"
 	"strings"
+	"time"
 
 	"fosim/common"
 )
@@ -67,6 +69,22 @@ func judgeC04(c *Ctx, sc *Scenario) *Violation {
 	if err := json.Unmarshal(sc.Extra, &ex); err != nil {
 		harnessFail("C04 scenario without extra: %v", err)
 	}
+	if ex.Stage == "recipe" {
+		return c04Recipe(c, sc.Note)
+	}
+	if len(sc.Faults) > 0 {
+		r := c.sim(c04Binary(c, sc, &ex), sc)
+		if r.Exit != 0 {
+			return nil // a run that says it failed promises nothing here (what it leaves behind is C16's question)
+		}
+		v := c04Oracle(sc, &ex, r)
+		if v != nil {
+			v.Class = "silent-under-fault"
+			v.Signature = "C04:" + ex.Stage + ":exit0-under-fault"
+			v.Detail = fmt.Sprintf("with I/O fault %+v the run still exits 0, but: %s", sc.Faults, v.Detail)
+		}
+		return v
+	}
 	if sc.Real {
 		// self-build over a real tree that already holds (damaged, newer) outputs: every one must come out as into
 		// an empty tree
@@ -119,6 +137,81 @@ func c04Oracle(sc *Scenario, exp *c04Extra, r *Result) *Violation {
 	for p := range w {
 		if _, ok := ex.Expect[p]; !ok {
 			return &Violation{Class: "extra", Signature: "C04:" + ex.Stage + ":" + p, Detail: fmt.Sprintf("%s: unexpected file %s written", ex.Stage, p)}
+		}
+	}
+	return nil
+}
+
+// c04Recipe runs the repository's own regeneration scripts (fc/fc_all.sh, samples/build_all.sh with myfc.sh) the
+// way a maintainer does: in a copy of the working tree, with the shipped binaries built from that tree, real sh,
+// real go fmt. mode "deleted": every listed generated file and README.md are removed first; mode "stale": they
+// hold old (valid Go) content, one of them is empty. Afterwards every one must equal the checked-in file.
+func c04Recipe(c *Ctx, mode string) *Violation {
+	repo := c.B.Repo
+	dir, err := os.MkdirTemp(c.Work, "recipe-")
+	if err != nil {
+		harnessFail("recipe dir: %v", err)
+	}
+	defer os.RemoveAll(dir)
+	if err := copyTree(repo, dir, func(rel string, isDir bool) bool {
+		top := strings.Split(rel, string(filepath.Separator))[0]
+		return !(top == "fc" || top == "cmd" || top == "pkg" || top == "samples" || top == "go.mod" || top == "go.sum")
+	}); err != nil {
+		harnessFail("recipe copy: %v", err)
+	}
+	var outputs []string
+	for _, p := range append(append([]*Program{corpusSelfBuild(repo)}, corpusSamples(repo)...), corpusTool(repo)) {
+		outputs = append(outputs, p.Outputs...)
+	}
+	outputs = append(outputs, "samples/README.md")
+	for i, o := range outputs {
+		full := filepath.Join(dir, o)
+		switch {
+		case strings.HasPrefix(o, "cmd/"):
+			// no script regenerates the tool's own gen file; it is left as it is
+		case mode == "deleted":
+			os.Remove(full)
+		case i%7 == 3:
+			os.WriteFile(full, nil, 0644)
+		case strings.HasSuffix(o, ".go"):
+			os.WriteFile(full, []byte("// output of an older compiler\npackage main\n"), 0644)
+		default:
+			os.WriteFile(full, []byte("stale\n"), 0644)
+		}
+	}
+	cp := func(from, to string) {
+		b := mustRead(from)
+		if err := os.WriteFile(filepath.Join(dir, to), b, 0755); err != nil {
+			harnessFail("recipe: %v", err)
+		}
+	}
+	cp(c.B.FcOff, "fc/fc")
+	cp(c.B.FcOff, "samples/fc")
+	cp(c.B.BsmOff, "samples/build_sample_md")
+	var log bytes.Buffer
+	for _, step := range [][2]string{{"fc", "fc_all.sh"}, {"samples", "build_all.sh"}} {
+		ctx, cancel := context.WithTimeout(context.Background(), 10*time.Minute)
+		cmd := exec.CommandContext(ctx, "sh", step[1])
+		cmd.Dir = filepath.Join(dir, step[0])
+		cmd.Env = append(os.Environ(), "GOFLAGS=-mod=mod", "GOPROXY=off", "GOSUMDB=off", "GOTOOLCHAIN=local")
+		cmd.Stdout, cmd.Stderr = &log, &log
+		err := cmd.Run()
+		cancel()
+		fmt.Fprintf(&log, "[%s/%s: %v]\n", step[0], step[1], err)
+	}
+	for _, o := range outputs {
+		if strings.HasPrefix(o, "cmd/") {
+			continue
+		}
+		want := mustRead(filepath.Join(repo, o))
+		got, err := os.ReadFile(filepath.Join(dir, o))
+		if err != nil {
+			return &Violation{Class: "recipe", Signature: "C04:recipe:" + o,
+				Detail: fmt.Sprintf("after fc/fc_all.sh and samples/build_all.sh on a copy of the working tree (generated files %s beforehand) %s does not exist; script output ends: %s", mode, o, tail(log.String(), 300))}
+		}
+		if !bytes.Equal(got, want) {
+			return &Violation{Class: "recipe", Signature: "C04:recipe:" + o,
+				Detail: fmt.Sprintf("after fc/fc_all.sh and samples/build_all.sh on a copy of the working tree (generated files %s beforehand) %s differs from the checked-in file: %s; script output ends: %s", mode, o, diffSummary(want, got), tail(log.String(), 300))}
 		}
 	}
 	return nil
@@ -458,6 +551,57 @@ func checkC04(tier string) {
 		}
 	}
 
+	// the repository's own scripts, as a maintainer runs them
+	c.phase("regeneration recipe: fc/fc_all.sh and samples/build_all.sh on a copy of the working tree")
+	for _, mode := range []string{"deleted", "stale"} {
+		c.count("recipe_runs", 1)
+		if v := c04Recipe(c, mode); v != nil {
+			sc := &Scenario{V: 1, Property: "C04", Seed: c.Seed, Run: -10, Program: "fc", Real: true, Note: mode, Enum: EnumSched{Mode: "identity"}}
+			b, _ := json.Marshal(c04Extra{Stage: "recipe", Generation: 1})
+			sc.Extra = b
+			outs2 = append(outs2, outcome{sc, v})
+		}
+	}
+
+	// one I/O fault per run: a run that still says success must have reproduced the checked-in files
+	c.phase("self-build, tool and samples under one I/O fault")
+	{
+		var fjobs []*Scenario
+		progs := append([]*Program{self, tool}, samples...)
+		stages := []string{"self-build", "tool"}
+		for pi, p := range progs {
+			stage := "sample"
+			if pi < len(stages) {
+				stage = stages[pi]
+			}
+			base := c04Scenario(c, p, run, c04Extra{Stage: stage, Generation: 1, Gofmt: true, Expect: expectOf(p.Outputs)}, EnumSched{Mode: "identity"})
+			run++
+			r0 := c.sim(c.B.FcVerif, base)
+			fr := common.NewRng(common.Mix(c.Seed, 404, uint64(pi)))
+			for k := range r0.Reads() {
+				sc := base.Clone()
+				sc.Extra = base.Extra
+				sc.Faults = []Fault{{Op: "read", Nth: k + 1, Kind: "error"}}
+				fjobs = append(fjobs, sc)
+			}
+			for k, w := range r0.Writes() {
+				sc := base.Clone()
+				sc.Extra = base.Extra
+				sc.Faults = []Fault{{Op: "write", Nth: k + 1, Kind: "error"}}
+				fjobs = append(fjobs, sc)
+				sc2 := base.Clone()
+				sc2.Extra = base.Extra
+				sc2.Faults = []Fault{{Op: "write", Nth: k + 1, Kind: "enospc", After: fr.Intn(w.Len + 1)}}
+				fjobs = append(fjobs, sc2)
+			}
+		}
+		fouts := parallel(c, len(fjobs), func(i int) outcome {
+			c.count("fault_runs", 1)
+			return outcome{fjobs[i], judgeC04(c, fjobs[i])}
+		}, nil)
+		outs2 = append(outs2, fouts...)
+	}
+
 	c.phase("reporting")
 	seen := map[string]bool{}
 	for _, o := range append(outs, outs2...) {
@@ -485,7 +629,8 @@ func checkC04(tier string) {
 			"schedules_self_build":                  selfM + 1,
 			"schedules_per_sample":                  sampleM + 1,
 			"schedules_generation2":                 gen2M + 1,
-			"fault_kinds_injected":                  "none (a fault legitimately changes the result; the fault-free configuration is the property)",
+			"fault_kinds_injected":                  "one fault per run in a separate leg (every read of the self-build, the tool and each sample failing; every write failing at open or with ENOSPC after n bytes): a run that still exits 0 must have reproduced the checked-in files; a run that fails is not judged here. All other legs are fault-free.",
+			"recipe_leg":                            "fc/fc_all.sh and samples/build_all.sh (with myfc.sh, go fmt, the rebuilt build_sample_md) run by sh on a copy of the working tree with the shipped binaries built from it, once with every listed generated file and README.md deleted, once with them stale or empty; every one must equal the checked-in file afterwards",
 			"real_directory_leg":                    "the shipped fc runs the self-build twice on a real directory: into a tree without outputs (must equal the simulated identity run: seam fidelity) and over a tree whose 12 outputs are present, torn / hand-edited / old, and newer than the sources (every one must come out as into an empty tree)",
 			"grouped_invocations":                   "all listed samples in one fc invocation (under schedules) and random sub-lists; a grouped invocation fc rejects is skipped",
 			"exhaustive":                            false,
